@@ -16,3 +16,4 @@ def rules(ctx):
     S.state_writer_rules(ctx)
     S.free_verdict_rules(ctx)
     S.key_compare_rules(ctx)
+    S.extract_state_rules(ctx)
